@@ -38,7 +38,7 @@ func c13Text(v int, withInclude bool) string {
 type c13Msg struct {
 	Doc     int    `json:"doc"`
 	Version int    `json:"version"`           // 0 = didOpen
-	Special string `json:"special,omitempty"` // "", "empty", "blank", "first" (the text of version 0 again)
+	Special string `json:"special,omitempty"` // "", "empty", "blank", "first" (the text of version 0 again), "declA/B/C" (account declarations differ), "drain" (no message: all background work finishes first)
 }
 
 type c13Scenario struct {
@@ -82,6 +82,15 @@ func c13VersionText(sc c13Scenario, m c13Msg) string {
 		return " \n\n"
 	case "first":
 		return c13Text(m.Doc*2, sc.Include)
+	case "declA":
+		// one of the two accounts declared: one warning
+		return "account a:one\n\n2001-01-01 d\n    a:one  1 USD\n    a:two  -1 USD\n"
+	case "declB":
+		// both declared: no warning
+		return "account a:one\naccount a:two\n\n2001-01-01 d\n    a:one  1 USD\n    a:two  -1 USD\n"
+	case "declC":
+		// the other one declared
+		return "account a:two\n\n2001-01-01 d\n    a:one  1 USD\n    a:two  -1 USD\n"
 	}
 	// distinct content per (doc, version)
 	return c13Text(m.Doc*2+m.Version, sc.Include)
@@ -106,6 +115,10 @@ func c13Run(dir string, sc c13Scenario, prefix []int) (vsched.Result, any) {
 	uris := []string{wire.URI(filepath.Join(dir, c13DocName(0))), wire.URI(filepath.Join(dir, c13DocName(1)))}
 	res := vsched.RunT0(prefix, func() {
 		for _, m := range sc.Msgs {
+			if m.Special == "drain" {
+				vsched.Drain()
+				continue
+			}
 			if m.Version == 0 {
 				s.DidOpen(uris[m.Doc], c13VersionText(sc, m))
 			} else {
@@ -129,7 +142,9 @@ func c13Expected(dir string, sc c13Scenario) map[string]string {
 	exp := map[string]string{}
 	final := map[int]c13Msg{}
 	for _, m := range sc.Msgs {
-		final[m.Doc] = m
+		if m.Special != "drain" {
+			final[m.Doc] = m
+		}
 	}
 	for d, m := range final {
 		// a fresh server that is only given the final texts (all final texts of
@@ -188,6 +203,13 @@ func c13Scenarios(thorough bool) []c13Scenario {
 		c13Scenario{Name: "empty-in-the-middle", Msgs: []c13Msg{{Doc: 0, Version: 0}, {Doc: 0, Version: 1, Special: "empty"}, {Doc: 0, Version: 2}}, Bound: sb},
 		c13Scenario{Name: "blank-at-the-end", Msgs: []c13Msg{{Doc: 0, Version: 0}, {Doc: 0, Version: 1}, {Doc: 0, Version: 2, Special: "blank"}}, Bound: sb},
 		c13Scenario{Name: "text-comes-back", Msgs: []c13Msg{{Doc: 0, Version: 0}, {Doc: 0, Version: 1}, {Doc: 0, Version: 2, Special: "first"}}, Bound: sb},
+	)
+	out = append(out,
+		// the text returns to one whose diagnostics were already published
+		c13Scenario{Name: "text-comes-back-after-publication", Msgs: []c13Msg{{Doc: 0, Version: 0}, {Special: "drain"}, {Doc: 0, Version: 1}, {Doc: 0, Version: 2, Special: "first"}}, Bound: sb},
+		// workspace: the declarations of the document change from version to version
+		c13Scenario{Name: "ws-declarations-change", Workspace: true, Msgs: []c13Msg{{Doc: 0, Version: 0, Special: "declA"}, {Doc: 0, Version: 1, Special: "declB"}, {Doc: 0, Version: 2, Special: "declC"}}, Bound: sb},
+		c13Scenario{Name: "ws-declarations-come-back", Workspace: true, Msgs: []c13Msg{{Doc: 0, Version: 0, Special: "declA"}, {Special: "drain"}, {Doc: 0, Version: 1, Special: "declB"}, {Doc: 0, Version: 2, Special: "declA"}}, Bound: sb},
 	)
 	// two documents: 2+2 and 2+3 messages, interleaved
 	two := []c13Msg{{Doc: 0, Version: 0}, {Doc: 1, Version: 0}, {Doc: 0, Version: 1}, {Doc: 1, Version: 1}}
